@@ -99,10 +99,12 @@ type PartialCert struct {
 // NewPartialCert returns a new partial certificate.
 func NewPartialCert(signature QuorumSignature, blockHash Hash) PartialCert {
 	var signer ID
-	signature.Participants().RangeWhile(func(i ID) bool {
-		signer = i
-		return false
-	})
+	if signature != nil {
+		signature.Participants().RangeWhile(func(i ID) bool {
+			signer = i
+			return false
+		})
+	}
 	return PartialCert{signer, signature, blockHash}
 }
 
